@@ -36,7 +36,9 @@ import modelgen  # noqa: E402
 import wire  # noqa: E402
 
 TOL = 1e-9          # model <-> implementation
-SPEC_TOL = 1e-8     # round trip on the implementation (float64 round-off of the Euler extraction)
+SPEC_TOL = 1e-7     # round trip on the implementation: float64 round-off of the Euler extraction; arccos near 1 (a middle hinge
+                    # angle at or near 0) is only accurate to sqrt(2 eps) = 2.1e-8 (measured 1.5e-8 at q = 0)
+TOL_Q = 1e-7        # model <-> implementation on the extracted q (same conditioning on both sides)
 NEAR = 1e-6         # distance from a branch point below which a case is not compared
 Q_RANGE = 1.2
 
@@ -278,6 +280,19 @@ def run_cases(ctx, n_models, n_states, seed_offset=0, spec_only=False):
             pos += 7
           else:
             pos += int(t)
+      if si == 0 or rng.random() < 0.25:
+        # small and zero joint coordinates (the neighbourhood of the identity is where guards and clips act): every
+        # non-free coordinate is replaced with probability 1/2 by 0 or a tiny angle/displacement
+        tiny = [0.0, 1e-6, -1e-6, 3e-5, -3e-5, 2e-4, -2e-4, 1e-3, -1e-3]
+        pos = 0
+        for t in m.sys.link_types:
+          if t == 'f':
+            pos += 7
+          else:
+            for c in range(int(t)):
+              if rng.random() < 0.5:
+                q[pos + c] = tiny[int(rng.integers(len(tiny)))]
+            pos += int(t)
       # random joint-frame / world inputs (not generated by forward)
       jp_, jr_ = rand_tf(rng, m.n)
       ja, jv = rng.uniform(-1, 1, size=(m.n, 3)), rng.uniform(-1, 1, size=(m.n, 3))
@@ -366,7 +381,7 @@ def run_cases(ctx, n_models, n_states, seed_offset=0, spec_only=False):
       src = ('quantifier:' if m.in_q else 'outside-quantifier:') + (op if op == 'rt' else pl.get('src', op))
       res['skipped_src'][src] = res['skipped_src'].get(src, 0) + 1
       continue
-    bad = q_close(m.sys, q_l, pl['q'], TOL)
+    bad = q_close(m.sys, q_l, pl['q'], TOL_Q)
     if bad or not close(qd_l, pl['qd']):
       name = {'inv': 'Inv.inverse', 'rt': 'Inv.inverse∘Kin.worldToJoint∘Kin.forward'}[op]
       res['disagreements'].append(dict(
@@ -449,7 +464,7 @@ def run_pipelines(ctx, n_models, seed_offset=0, spec_only=False):
       _, margin, q_l, qd_l = p
       if margin < NEAR:
         skipped += 1; continue
-      bad = q_close(m.sys, q_l, q1, TOL)
+      bad = q_close(m.sys, q_l, q1, TOL_Q)
       if bad or not close(qd_l, qd1):
         dis.append(dict(what=f'Inv.stepTail (Lean) on the x, xd reported by {pipe_name}.pipeline.step differs from the q, qd '
                         f'it reports (links {bad}, stacks {m.kinds})', xml=m.xml, lean_q=q_l.tolist(), real_q=q1.tolist(),
